@@ -5,7 +5,8 @@ FIFO-link recurrence and the tail-drop rule from the probe records of the
 IMPLEMENTATION trace alone."""
 import re
 
-BWS = [0, 1000, 5000, 200000, 800000, 12345678, 100000000, 1000000000]
+BWS = [0, 1000, 5000, 200000, 800000, 12345678, 100000000, 1000000000, 3000000, 7000000, 300000000, 700000000, 1500000000]
+# (the last five do not divide 10^9: the per-byte time has a fraction of a nanosecond that must not be truncated before it is multiplied)
 LATS = [0, 0, 1, 1000, 1000000, 30000000, 500000000, 10000000000]
 
 
